@@ -68,6 +68,10 @@ def run(ctx):
         behaviours += ctx.tlc_simulate("migration", "HeadStateMBT.tla", "HeadState_sim.cfg", depth=depth,
                                        seed=ctx.seed * 1000 + i, timeout=900)
     res = ctx.run_engine(binary, "TestHeadStateReplay", {"behaviours": behaviours}, timeout=2400)
+    obs = (res.get("stats") or {}).pop("observations", None) or []
+    for o in obs:
+        print("OBSERVATION: property=G05 %s" % o, flush=True)
+    ctx.coverage["observations"] = len(obs)
     ctx.absorb(res, "headstate", "TestHeadStateReplay")
     ctx.coverage["behaviours"] = len(behaviours)
     ctx.coverage["steps_replayed"] = res.get("steps", 0)
